@@ -124,6 +124,56 @@ func climateEngine(args []string) error {
 			"deltaok": math.Float64bits(q.del) == math.Float64bits(q.dry-q.wet), "finite": finite,
 			"raw": []float64{es[q.e], hs[q.h], q.dry, jsonable(q.svp), jsonable(q.dew), jsonable(q.wet), jsonable(q.del)}})
 	}
+	// one LONG record (4099 timesteps, temperatures rising from -40 to 55 C at the lowest humidity of the grid): a
+	// kernel that treats long series differently (blocks, workers) is only reached here; judged by the same laws
+	{
+		const TL = 4099
+		m := sim.Catalog["ClimateVariables"]()
+		p := data.NewArray2DFloat64(1, 1)
+		p.Set2(0, 0, es[0])
+		m.ApplyParameters(p)
+		in := data.NewArray3DFloat64(1, 2, TL)
+		for i := 0; i < TL; i++ {
+			in.Set3(0, 0, i, -40+95*float64(i)/float64(TL-1))
+			in.Set3(0, 1, i, hs[0])
+		}
+		st := m.InitialiseStates(1)
+		out := data.NewArray3DFloat64(1, 4, TL)
+		if pm := protect(func() { m.Run(in, st, out) }); pm != "" {
+			return fmt.Errorf("ClimateVariables panicked on a record of %d timesteps: %s", TL, pm)
+		}
+		lvals := []float64{0}
+		for i := 0; i < TL; i++ {
+			for k := 0; k < 3; k++ {
+				if v := out.Get3(0, k, i); !math.IsNaN(v) && !math.IsInf(v, 0) {
+					lvals = append(lvals, v)
+				}
+			}
+			lvals = append(lvals, in.Get3(0, 0, i))
+		}
+		sort.Float64s(lvals)
+		lrank := func(x float64) int {
+			if math.IsNaN(x) || math.IsInf(x, 0) {
+				return -1
+			}
+			return sort.SearchFloat64s(lvals, x)
+		}
+		enc.Encode(map[string]interface{}{"ev": "grid", "nt": TL, "nh": 1, "ne": 1, "zero": lrank(0)})
+		for i := 0; i < TL; i++ {
+			dry, svp, dew, wet, del := in.Get3(0, 0, i), out.Get3(0, 0, i), out.Get3(0, 1, i), out.Get3(0, 2, i), out.Get3(0, 3, i)
+			finite := true
+			for _, x := range []float64{svp, dew, wet, del} {
+				if math.IsNaN(x) || math.IsInf(x, 0) {
+					finite = false
+				}
+			}
+			enc.Encode(map[string]interface{}{"ev": "pt", "e": 0, "h": 0, "t": i,
+				"svp": lrank(svp), "dew": lrank(dew), "wet": lrank(wet), "dry": lrank(dry),
+				"deltaok": math.Float64bits(del) == math.Float64bits(dry-wet), "finite": finite,
+				"raw": []float64{es[0], hs[0], dry, jsonable(svp), jsonable(dew), jsonable(wet), jsonable(del)}})
+		}
+		pts = append(pts, make([]pt, TL)...)
+	}
 	w.Flush()
 	fh.Close()
 	s := &summary{Engine: "climate", Evaluations: len(pts), Distinct: len(pts)}
